@@ -39,13 +39,22 @@ def configs(tier, seed):
                 else:
                     cfg["keylog_label"] = lab
                 out.append(cfg)
+    for suite in (0x1301, 0x1302, 0x1303, 0x1304):
+        shapes = [(8, 4, 8), (0, 0, 0), (20, 20, 20)] if tier == "quick" else [(n, n, n) for n in range(0, 21)]
+        for od, cc, sc in shapes:
+            for feat, extra in (("basic", {}), ("zero-rtt", {"zero_rtt": True}), ("updates", {"key_update_at": [0, 1, 2], "n_app": 3}), ("retry", {"retry": True})):
+                if tier == "quick" and (od, cc, sc) != (8, 4, 8) and feat != "basic":
+                    continue
+                out.append({"harness": "quic", "name": "quic-%04x-%s-cid%d" % (suite, feat, od), "suite": suite, "offered": [suite], "odcid_len": max(od, 0),
+                            "c_cid_len": cc, "s_cid_len": sc, "ipv": 4, "n_app": extra.get("n_app", 1), "data_len": 1, "sym_dirs": False,
+                            "dirs": [0, 1, 0], **extra})
     return out
 
 
 def bounds(tier):
     return {"suites": "every (cipher, MAC) behaviour class x version" + (" (all table entries)" if tier == "thorough" else " (one entry per class)"),
             "symbolic": "master / pre-master / traffic secrets, both randoms (all bytes)", "key-log labels": "CLIENT_RANDOM, RSA; TLS 1.3 with and without handshake secrets",
-            "outside": "QUIC keys until the QUIC harness lands"}
+            "QUIC": "4 suites x connection-id lengths {0, 8, 20} (thorough: 0..20) x initial/handshake/0-RTT/1-RTT/header-protection keys x 3 key-update generations x Retry", "outside": "QUIC v2"}
 
 
 def _expected(cfg, meta, items_keylog):
@@ -71,7 +80,72 @@ def _expected(cfg, meta, items_keylog):
     return exp
 
 
+def _quic_expected(meta, cfg):
+    C, S = meta["C"], meta["S"]
+    exp = {}
+    for side, nm in ((C, "client"), (S, "server")):
+        for lvl, tl in (("initial", "initial"), ("handshake", "handshake")):
+            for part in ("key", "iv", "hp"):
+                exp["%s_%s_%s" % (nm, tl, part)] = side.keys[lvl][part]
+        g0 = side.gens[0]
+        exp["%s_application_key" % nm], exp["%s_application_iv" % nm], exp["%s_application_hp" % nm] = g0["key"], g0["iv"], g0["hp"]
+        exp["%s_application_sec" % nm] = g0["secret"]
+    if cfg.get("zero_rtt"):
+        for part in ("key", "iv", "hp"):
+            exp["client_early_" + part] = C.keys["early"][part]
+    gens = [(s_["key"], s_["iv"], c_["key"], c_["iv"], s_["secret"], c_["secret"]) for s_, c_ in zip(S.gens, C.gens)]
+    return exp, gens
+
+
+def _run_quic(cfg):
+    from tlv.sx.core import ctx, sym_and
+    from tlv.sx.symbytes import as_symbytes
+    from tlv.harness import pipeline as P, c02
+    from tlv.harness.common import explore_cfg
+    from tlv.oracle import scenario as SC, quic_scenario as QS
+    mods = P.setup_symbolic()
+
+    def scenario():
+        c = ctx()
+        src = SC.SymSrc()
+        dgrams, keylog, meta = QS.build(cfg, src)
+        c02.assume_cids_prefix_free(c, meta)
+        c02.assume_no_accidental_cid(c, meta, dgrams)
+        ep = P.Endpoint(ipv=4)
+        try:
+            out, sessions = P.run_quic(mods, P.udp_frames(ep, dgrams), P.keylog_objects(mods, keylog))
+        except Exception as e:
+            c.fail("no-exception", "%s: %s" % (type(e).__name__, e))
+            return {"outcome": "exception"}
+        c.check(True, "no-exception")
+        if not c.check(len(sessions) == 1 and "Application" in sessions[0].decryptors, "decryptor-installed"):
+            return {"outcome": "no decryptor"}
+        s = sessions[0]
+        exp, gens = _quic_expected(meta, cfg)
+        conds, bad = [], []
+        for name, want in exp.items():
+            got = s.keys.get(name)
+            if got is None or len(got) != len(want):
+                conds.append(False)
+                bad.append("%s: installed %r, RFC length %d" % (name, None if got is None else len(got), len(want)))
+            else:
+                conds.append(as_symbytes(got) == want)
+        app = s.decryptors["Application"]
+        if len(app) < len(gens):
+            conds.append(False)
+            bad.append("%d key generations installed, %d used by the endpoints" % (len(app), len(gens)))
+        else:
+            for g, d in zip(gens, app):
+                for want, got in zip(g, (d.server_key, d.server_iv, d.client_key, d.client_iv, d.keys[4], d.keys[5])):
+                    conds.append(len(got) == len(want) and (as_symbytes(got) == want))
+        c.check(sym_and(*conds), "keys-equal-rfc", "; ".join(bad) or "values differ")
+        return {"outcome": "compared %d keys, %d generations" % (len(exp), len(gens))}
+    return explore_cfg(scenario, cfg, timeout_ms=60000, sample_paths=1)
+
+
 def run_config(cfg):
+    if cfg["harness"] == "quic":
+        return _run_quic(cfg)
     from tlv.sx.core import ctx, sym_and
     from tlv.sx.symbytes import as_symbytes
     from tlv.harness import pipeline as P
@@ -116,8 +190,48 @@ def _all_secrets(cfg, src, meta, keylog):
     return keylog
 
 
+def _concrete_quic(cfg, inp):
+    import tlexport.main as main
+    from tlexport.packet import Packet
+    from tlexport.keylog_reader import Key
+    from tlv import e2e
+    from tlv.harness import pipeline as P
+    from tlv.oracle import scenario as SC, quic_scenario as QS
+    dgrams, keylog, meta = QS.build(cfg, SC.ConcreteSrc(inp))
+    ep = P.Endpoint(ipv=4)
+    kl = [Key("%s %s %s" % (l, bytes(a).hex(), bytes(b).hex())) for l, a, b in keylog]
+    main.server_ports[:] = [443, 44330]
+    sessions = []
+    try:
+        for frame, ts in e2e.concrete_udp_frames(ep, dgrams):
+            p = Packet(frame, ts / 1e6)
+            if p.udp_packet and len(p.tls_data):
+                main.handle_quic_packet(p, kl, sessions, {}, True)
+    except Exception as e:
+        return {"ok": False, "problems": ["exception %s: %s" % (type(e).__name__, e)]}
+    if len(sessions) != 1 or "Application" not in sessions[0].decryptors:
+        return {"ok": False, "problems": ["no application decryptor installed"]}
+    s = sessions[0]
+    exp, gens = _quic_expected(meta, cfg)
+    problems = []
+    for name, want in exp.items():
+        got = s.keys.get(name)
+        if got is None or bytes(got) != bytes(want):
+            problems.append("%s: installed %s, RFC %s" % (name, None if got is None else bytes(got).hex(), bytes(want).hex()))
+    app = s.decryptors["Application"]
+    if len(app) < len(gens):
+        problems.append("%d key generations installed, %d used" % (len(app), len(gens)))
+    else:
+        for i, (g, d) in enumerate(zip(gens, app)):
+            if tuple(bytes(x) for x in g) != tuple(bytes(x) for x in (d.server_key, d.server_iv, d.client_key, d.client_iv, d.keys[4], d.keys[5])):
+                problems.append("generation %d differs" % i)
+    return {"ok": not problems, "problems": problems[:4]}
+
+
 def _concrete(cfg, inp):
     """Real Session + real cryptography: the installed keys must equal the reference schedule computed with real hashes."""
+    if cfg["harness"] == "quic":
+        return _concrete_quic(cfg, inp)
     import tlexport.main as main
     from tlexport.packet import Packet
     from tlexport.keylog_reader import Key
